@@ -2275,7 +2275,7 @@ void get_line_number_info (char **ret_file, int *ret_line) {
 }
 
 char* get_line_number (const char *p, const program_t * progp) {
-  static char buf[256];
+  static char buf[PATH_MAX + 16];	/* a program or include file name, ':' and the line */
   int i;
   char *file = "???";
   int line = -1;
@@ -2302,7 +2302,7 @@ char* get_line_number (const char *p, const program_t * progp) {
     }
   if (!file)
     file = progp->name;
-  sprintf (buf, "/%s:%d", file, line);
+  snprintf (buf, sizeof (buf), "/%s:%d", file, line);
   return buf;
 }
 
